@@ -327,4 +327,21 @@ theorem tracker_count_bound {P D : Type} (g : Geo P D) (std : Bool) (now : Nat) 
     · exact congrArg (· + 1) (hupd _ _)
   omega
 
+/-! ## the two `u32` counters (tracker message count, statistics total) -/
+
+/-- counting a frame never panics and keeps the counter a `u32`, for every value of the counter -/
+theorem count_total (n : Nat) (h : n ≤ u32Max) : ∃ m, incrCount n = .ok m ∧ m ≤ u32Max ∧ n ≤ m := by
+  refine ⟨_, rfl, ?_, ?_⟩ <;> omega
+
+/-- below the last value the counter is the model's `n + 1` -/
+theorem count_agrees_below (n : Nat) (h : n < u32Max) : incrCount n = .ok (n + 1) ∧ incrCountOld n = .ok (n + 1) := by
+  unfold incrCount incrCountOld
+  constructor
+  · congr 1; omega
+  · rw [if_neg (by omega)]
+
+/-- the arithmetic before the repair panicked on the 2^32-th frame of one aircraft: reproduced on the real `Airplanes::incr_messages`
+(2^32 calls, 147 s: `attempt to add with overflow` at `rsadsb_common/src/lib.rs:275`), repaired in /repo (see known_findings.json) -/
+theorem count_old_panics : incrCountOld u32Max = .panic "rsadsb_common lib.rs: attempt to add with overflow" := rfl
+
 end Adsb.C01
